@@ -503,3 +503,506 @@ Proof.
     + intros x. rewrite out_cons. cbn [dstep]. rewrite E. cbn [fst snd].
       rewrite ocheck_app, Hoc1. unfold next_state. cbn [dstep]. rewrite E. cbn [fst]. apply Hoc'.
 Qed.
+
+(* ------------------------------------------------------------------ consequences: no panic *)
+
+Lemma pinv_init c : pinv c pstate0 [].
+Proof. split; [constructor|]. split; [intros t []|intros t []]. Qed.
+
+Lemma wf_history_unfold c mf dbg h :
+  wf_history c mf dbg h = true ->
+  cfg_ok c = true /\ wf_from c (Live (init_for c mf dbg)) pstate0 h = true.
+Proof. unfold wf_history, wf_protocol, wf_from. intros H. apply andb_true_iff in H. exact H. Qed.
+
+Lemma wf_run c mf dbg h :
+  wf_history c mf dbg h = true -> (shutdown_count h <= 2)%nat ->
+  exists d' ps',
+    final_state (Live (init_for c mf dbg)) h = Live d' /\ sim c d' ps' /\
+    pinv c ps' (finished_tests h) /\
+    forall t, ocheck (c_total c t) t ONone (out (Live (init_for c mf dbg)) h)
+              = Some (o_of_phase (ps_phase ps' t)).
+Proof.
+  intros Hwf Hsig. apply wf_history_unfold in Hwf. destruct Hwf as [Hok Hwf].
+  assert (Hs : (sig_n (d_sig (init_for c mf dbg)) + shutdown_count h <= 2)%nat) by (cbn; exact Hsig).
+  destruct (sim_run c Hok h _ _ [] (sim_init c mf dbg) (pinv_init c) Hwf Hs) as (d' & ps' & A & B & C & D).
+  exists d', ps'. split; [exact A|]. split; [exact B|]. split; [exact C|]. exact D.
+Qed.
+
+Lemma never_panics_on_wf c mf dbg h :
+  wf_history c mf dbg h = true -> (shutdown_count h <= 2)%nat ->
+  exists d, final_state (Live (init_for c mf dbg)) h = Live d.
+Proof. intros H1 H2. destruct (wf_run _ _ _ _ H1 H2) as (d & _ & A & _). eauto. Qed.
+
+(* ------------------------------------------------------------------ consequences: C01 *)
+
+Lemma final_of_in h t a : final_of h t = Some a -> In (t, a) (finished_events h).
+Proof.
+  induction h as [|e h IH]; cbn [final_of]; [discriminate|].
+  destruct e; cbn [finished_events]; auto.
+  destruct (N.eqb_spec t0 t) as [->|Hne].
+  - intros H; inversion H; subst. left; auto.
+  - intros H. right. auto.
+Qed.
+
+Lemma final_of_none h t : final_of h t = None <-> ~ In t (finished_tests h).
+Proof.
+  unfold finished_tests. induction h as [|e h IH]; cbn [final_of finished_events map].
+  - split; auto.
+  - destruct e; auto. cbn [finished_events map fst In].
+    destruct (N.eqb_spec t0 t) as [->|Hne].
+    + split; [discriminate|]. intros H. exfalso. apply H. left; auto.
+    + rewrite IH. split; intros H; [intros [E|Hin]; [congruence|auto] | intros Hin; apply H; right; auto].
+Qed.
+
+Lemma final_of_unique h t a :
+  NoDup (finished_tests h) -> In (t, a) (finished_events h) -> final_of h t = Some a.
+Proof.
+  unfold finished_tests. induction h as [|e h IH]; cbn [final_of finished_events map]; [intros _ []|].
+  destruct e; auto. cbn [finished_events map fst]. intros Hnd Hin. inversion Hnd; subst.
+  destruct Hin as [E|Hin].
+  - inversion E; subst. rewrite N.eqb_refl. reflexivity.
+  - destruct (N.eqb_spec t0 t) as [->|Hne]; auto.
+    exfalso. apply H1. apply (in_map fst) in Hin. exact Hin.
+Qed.
+
+Lemma tally_fin_len h : tally ev_fin h = N.of_nat (length (finished_events h)).
+Proof.
+  induction h as [|e h IH]; cbn [tally finished_events length]; auto.
+  destruct e; cbn [ev_fin finished_events length]; rewrite IH; lia.
+Qed.
+
+Lemma tally_fail_zero h :
+  tally ev_fail h = 0 <-> forall t a, In (t, a) (finished_events h) -> is_success (a_res a) = true.
+Proof.
+  induction h as [|e h IH]; cbn [tally finished_events].
+  - split; auto; intros _ t a [].
+  - destruct e; cbn [ev_fail finished_events]; try (rewrite N.add_0_l; exact IH).
+    unfold fail1. split.
+    + intros H t' a' [E|Hin].
+      * inversion E; subst. destruct (is_success (a_res a')); auto. lia.
+      * apply (proj1 IH) with (t := t'); auto. destruct (is_success (a_res a)); lia.
+    + intros H. rewrite (H t a (or_introl eq_refl)). rewrite N.add_0_l. apply (proj2 IH).
+      intros t' a' Hin. apply (H t' a'). right; auto.
+Qed.
+
+Lemma tally_sfail_zero h : tally ev_sfail h = 0 <-> forallb is_success (script_results h) = true.
+Proof.
+  induction h as [|e h IH]; cbn [tally script_results forallb]; [split; auto|].
+  destruct e; cbn [ev_sfail script_results forallb]; try (rewrite N.add_0_l; exact IH).
+  unfold fail1. destruct (is_success r); cbn [andb].
+  - rewrite N.add_0_l. exact IH.
+  - split; [lia|discriminate].
+Qed.
+
+Lemma all_passed_iff sel h :
+  NoDup sel -> NoDup (finished_tests h) -> incl (finished_tests h) sel ->
+  (forallb (test_passed h) sel = true <->
+   tally ev_fail h = 0 /\ N.of_nat (length sel) <= tally ev_fin h).
+Proof.
+  intros Hsel Hnd Hincl. rewrite forallb_forall, tally_fail_zero, tally_fin_len.
+  unfold test_passed. split.
+  - intros H. split.
+    + intros t a Hin. assert (Ht : In t sel) by (apply Hincl; apply (in_map fst) in Hin; exact Hin).
+      specialize (H t Ht). rewrite (final_of_unique _ _ _ Hnd Hin) in H. exact H.
+    + assert (Hi : incl sel (finished_tests h)).
+      { intros t Ht. specialize (H t Ht). destruct (final_of h t) eqn:E; [|discriminate].
+        apply final_of_in in E. apply (in_map fst) in E. exact E. }
+      pose proof (NoDup_incl_length Hsel Hi) as L. unfold finished_tests in L.
+      rewrite map_length in L. lia.
+  - intros [Hall Hlen] t Ht.
+    assert (Hi : incl sel (finished_tests h)).
+    { apply NoDup_length_incl; auto. unfold finished_tests. rewrite map_length. lia. }
+    specialize (Hi t Ht). destruct (final_of h t) eqn:E.
+    + apply final_of_in in E. eapply Hall; eauto.
+    + apply final_of_none in E. contradiction.
+Qed.
+
+Lemma init_for_stats c mf dbg :
+  d_stats (init_for c mf dbg) = stats0 (N.of_nat (length (c_sel c))).
+Proof. reflexivity. Qed.
+
+Theorem run_exit_spec c mf dbg h p :
+  wf_history c mf dbg h = true -> (shutdown_count h <= 2)%nat ->
+  run_exit c mf dbg h p = Some (spec_exit c h p).
+Proof.
+  intros Hwf Hsig.
+  destruct (wf_run _ _ _ _ Hwf Hsig) as (d & ps & Hfin & Hsim & (Hnd & _ & Hincl) & _).
+  apply wf_history_unfold in Hwf. destruct Hwf as [Hok _].
+  assert (Hsel : NoDup (c_sel c)).
+  { unfold cfg_ok in Hok. apply andb_true_iff in Hok. destruct Hok as [Hok _].
+    apply andb_true_iff in Hok. destruct Hok as [Hok _]. apply nodupb_NoDup; auto. }
+  unfold run_exit. rewrite Hfin. f_equal.
+  pose proof (run_counts _ _ _ Hfin) as P. cbv zeta in P. rewrite init_for_stats in P.
+  destruct P as (Pfin & Pfail & _ & Pinit & Pssi & _ & Psf & _).
+  cbn [stats0 finished_count failed_count failed failed_setup_script_count exec_failed timed_out
+       initial_run_count ss_initial ss_failed ss_exec_failed ss_timed_out] in *.
+  rewrite !N.add_0_l in *.
+  assert (Hs1 : tally ev_sfail h = 0 -> forallb is_success (script_results h) = true)
+    by apply tally_sfail_zero.
+  assert (Hs2 : tally ev_sfail h <> 0 -> forallb is_success (script_results h) = false).
+  { intros Hne. destruct (forallb is_success (script_results h)) eqn:Es; auto.
+    apply tally_sfail_zero in Es. contradiction. }
+  assert (Hp1 : tally ev_fail h = 0 /\ N.of_nat (length (c_sel c)) <= tally ev_fin h ->
+                forallb (test_passed h) (c_sel c) = true)
+    by apply (all_passed_iff _ _ Hsel Hnd Hincl).
+  assert (Hp2 : ~ (tally ev_fail h = 0 /\ N.of_nat (length (c_sel c)) <= tally ev_fin h) ->
+                forallb (test_passed h) (c_sel c) = false).
+  { intros Hne. destruct (forallb (test_passed h) (c_sel c)) eqn:Et; auto.
+    apply (all_passed_iff _ _ Hsel Hnd Hincl) in Et. contradiction. }
+  assert (Hle : tally ev_fin h <= N.of_nat (length (c_sel c))).
+  { rewrite tally_fin_len. pose proof (NoDup_incl_length Hnd Hincl) as L.
+    unfold finished_tests in L. rewrite map_length in L. lia. }
+  unfold spec_exit.
+  destruct (summarize_final_cases (d_stats d) Pssi) as
+    [[A E]|[(A & B & a & b & E)|[(A & B & C & a & b & E)|[(A & B & C & D & E)|(A & B & C & D & E)]]]];
+    rewrite E; cbn [exit_code].
+  - rewrite Hs2 by lia. reflexivity.
+  - rewrite Hs1 by lia. rewrite Hp2 by lia. reflexivity.
+  - rewrite Hs1 by lia. rewrite Hp2 by lia. reflexivity.
+  - rewrite Hs1 by lia. rewrite Hp1 by lia. cbn [negb].
+    destruct (c_sel c) as [|x l]; [destruct p as [[| |]|]; reflexivity|].
+    cbn [length] in *. lia.
+  - rewrite Hs1 by lia. rewrite Hp1 by lia. cbn [negb].
+    destruct (c_sel c) as [|x l]; [cbn [length] in *; lia|]. reflexivity.
+Qed.
+
+Lemma forallb_false_exists {A} (f : A -> bool) l :
+  forallb f l = false <-> exists x, In x l /\ f x = false.
+Proof.
+  induction l as [|x l IH]; cbn [forallb].
+  - split; [discriminate|intros (x & [] & _)].
+  - destruct (f x) eqn:E; cbn [andb].
+    + rewrite IH. split; intros (y & Hin & Hy); exists y; split; auto.
+      * right; auto.
+      * destruct Hin as [<-|]; auto. congruence.
+    + split; auto. intros _. exists x. split; auto. left; auto.
+Qed.
+
+Lemma test_passed_iff h t :
+  test_passed h t = true <-> exists a, final_of h t = Some a /\ is_success (a_res a) = true.
+Proof.
+  unfold test_passed. destruct (final_of h t) as [a|].
+  - split; eauto. intros (a' & E & H). inversion E; subst; auto.
+  - split; [discriminate|intros (a & E & _); discriminate].
+Qed.
+
+(* exit status 0 <-> the property's right-hand side, on the specification side *)
+Lemma spec_exit_zero_iff c h p :
+  spec_exit c h p = 0%Z <->
+  (forall r, In r (script_results h) -> is_success r = true) /\
+  (forall t, In t (c_sel c) -> exists a, final_of h t = Some a /\ is_success (a_res a) = true) /\
+  (c_sel c <> [] \/ p = Some NtPass \/ p = Some NtWarn).
+Proof.
+  unfold spec_exit.
+  destruct (forallb is_success (script_results h)) eqn:Es; cbn [negb].
+  2: { split; [discriminate|]. intros (A & _). apply forallb_false_exists in Es.
+       destruct Es as (r & Hin & Hr). rewrite (A r Hin) in Hr. discriminate. }
+  rewrite forallb_forall in Es.
+  destruct (forallb (test_passed h) (c_sel c)) eqn:Et; cbn [negb].
+  2: { split; [discriminate|]. intros (_ & B & _). apply forallb_false_exists in Et.
+       destruct Et as (t & Hin & Ht). apply B in Hin. apply test_passed_iff in Hin. congruence. }
+  rewrite forallb_forall in Et.
+  assert (B : forall t, In t (c_sel c) -> exists a, final_of h t = Some a /\ is_success (a_res a) = true)
+    by (intros t Ht; apply test_passed_iff; auto).
+  destruct (c_sel c) as [|x l] eqn:El.
+  - destruct p as [[| |]|]; cbn; split; intros H; try discriminate;
+      try (repeat split; auto; fail);
+      try (destruct H as (_ & _ & [H|[H|H]]); congruence).
+  - split; auto. intros _. repeat split; auto. left; discriminate.
+Qed.
+
+Lemma exit_zero_iff c mf dbg h p :
+  wf_history c mf dbg h = true -> (shutdown_count h <= 2)%nat ->
+  (run_exit c mf dbg h p = Some 0%Z <->
+   (forall r, In r (script_results h) -> is_success r = true) /\
+   (forall t, In t (c_sel c) -> exists a, final_of h t = Some a /\ is_success (a_res a) = true) /\
+   (c_sel c <> [] \/ p = Some NtPass \/ p = Some NtWarn)).
+Proof.
+  intros Hwf Hsig. rewrite (run_exit_spec _ _ _ _ p Hwf Hsig). rewrite <- spec_exit_zero_iff.
+  split; [intros H; inversion H; reflexivity | intros ->; reflexivity].
+Qed.
+
+Lemma exit_codes c mf dbg h p :
+  wf_history c mf dbg h = true -> (shutdown_count h <= 2)%nat ->
+  exists code, run_exit c mf dbg h p = Some code /\
+    (* a setup script failed: 105 *)
+    ((exists r, In r (script_results h) /\ is_success r = false) -> code = 105%Z) /\
+    (* no script failed, but a selected test failed, timed out, could not be started, or has no
+       Finished in the history (cancelled / never started): 100 *)
+    ((forall r, In r (script_results h) -> is_success r = true) ->
+     (exists t, In t (c_sel c) /\
+                (final_of h t = None \/ exists a, final_of h t = Some a /\ is_success (a_res a) = false)) ->
+     code = 100%Z) /\
+    (* nothing failed and nothing was selected: 4 under the default policy and --no-tests=fail *)
+    ((forall r, In r (script_results h) -> is_success r = true) ->
+     c_sel c = [] -> (p = None \/ p = Some NtFail) -> code = 4%Z) /\
+    (* otherwise 0 *)
+    ((forall r, In r (script_results h) -> is_success r = true) ->
+     (forall t, In t (c_sel c) -> exists a, final_of h t = Some a /\ is_success (a_res a) = true) ->
+     (c_sel c <> [] \/ p = Some NtPass \/ p = Some NtWarn) -> code = 0%Z).
+Proof.
+  intros Hwf Hsig. exists (spec_exit c h p). split; [apply run_exit_spec; auto|].
+  unfold spec_exit. repeat split.
+  - intros (r & Hin & Hr).
+    replace (forallb is_success (script_results h)) with false; [reflexivity|].
+    symmetry. apply forallb_false_exists. eauto.
+  - intros Hs (t & Hin & Ht).
+    replace (forallb is_success (script_results h)) with true
+      by (symmetry; apply forallb_forall; auto). cbn [negb].
+    replace (forallb (test_passed h) (c_sel c)) with false; [reflexivity|].
+    symmetry. apply forallb_false_exists. exists t. split; auto. unfold test_passed.
+    destruct Ht as [->|(a & -> & Ha)]; auto.
+  - intros Hs Hsel Hp.
+    replace (forallb is_success (script_results h)) with true
+      by (symmetry; apply forallb_forall; auto). cbn [negb]. rewrite Hsel. cbn [forallb negb].
+    destruct Hp as [->| ->]; reflexivity.
+  - intros Hs Ht Hp. apply spec_exit_zero_iff. auto.
+Qed.
+
+(* ------------------------------------------------------------------ consequences: C02 *)
+
+Definition started_flag (o : ostate) : nat := match o with ONone | OSkip => 0 | _ => 1 end.
+Definition finished_flag (o : ostate) : nat := match o with ODone => 1 | _ => 0 end.
+Definition skipped_flag (o : ostate) : nat := match o with OSkip => 1 | _ => 0 end.
+
+Lemma count_if_cons f e l :
+  count_if f (e :: l) = ((if f e then 1 else 0) + count_if f l)%nat.
+Proof. unfold count_if. cbn [filter]. destruct (f e); reflexivity. Qed.
+
+Lemma other_tid_not_of t e :
+  (forall t', event_tid e = Some t' -> t' <> t) ->
+  is_started_of t e = false /\ is_finished_of t e = false /\ is_skipped_of t e = false.
+Proof.
+  intros H. destruct e; cbn [is_started_of is_finished_of is_skipped_of]; repeat split; auto;
+    (destruct (N.eqb_spec t0 t) as [->|]; auto; exfalso; eapply H; cbn; eauto).
+Qed.
+
+Lemma ostep_flags tot t o e o' :
+  event_tid e = Some t -> ostep tot o e = Some o' ->
+  ((if is_started_of t e then 1 else 0) + started_flag o = started_flag o' /\
+   (if is_finished_of t e then 1 else 0) + finished_flag o = finished_flag o' /\
+   (if is_skipped_of t e then 1 else 0) + skipped_flag o = skipped_flag o')%nat.
+Proof.
+  intros Ht Hs. destruct e; cbn [event_tid] in Ht; try discriminate; inversion Ht; subst;
+    destruct o; cbn [ostep] in Hs; try discriminate;
+    repeat match type of Hs with context [if ?b then _ else _] => destruct b; try discriminate end;
+    inversion Hs; subst; cbn [is_started_of is_finished_of is_skipped_of started_flag finished_flag skipped_flag];
+    rewrite ?N.eqb_refl; auto.
+Qed.
+
+Lemma ocheck_counts tot t l : forall o o',
+  ocheck tot t o l = Some o' ->
+  (count_if (is_started_of t) l + started_flag o = started_flag o' /\
+   count_if (is_finished_of t) l + finished_flag o = finished_flag o' /\
+   count_if (is_skipped_of t) l + skipped_flag o = skipped_flag o')%nat.
+Proof.
+  induction l as [|e l IH]; intros o o' H; cbn [ocheck] in H.
+  - inversion H; subst. unfold count_if; cbn. auto.
+  - rewrite !count_if_cons.
+    destruct (event_tid e) as [t'|] eqn:Et.
+    + destruct (N.eqb_spec t' t) as [->|Hne].
+      * destruct (ostep tot o e) as [o1|] eqn:Es; [|discriminate].
+        destruct (ostep_flags _ _ _ _ _ Et Es) as (A & B & C).
+        destruct (IH _ _ H) as (A' & B' & C'). lia.
+      * destruct (other_tid_not_of t e) as (A & B & C).
+        { intros t'' E. rewrite Et in E. inversion E; subst. auto. }
+        rewrite A, B, C. apply IH; auto.
+    + destruct (other_tid_not_of t e) as (A & B & C).
+      { intros t'' E. rewrite Et in E. discriminate. }
+      rewrite A, B, C. apply IH; auto.
+Qed.
+
+Lemma count_if_pos_exists f l : (0 < count_if f l)%nat -> exists x, In x l /\ f x = true.
+Proof.
+  unfold count_if. induction l as [|x l IH]; cbn [filter length]; [lia|].
+  destruct (f x) eqn:E; [intros _; exists x; split; auto; left; auto|].
+  intros H. destruct (IH H) as (y & Hin & Hy). exists y. split; auto. right; auto.
+Qed.
+
+Lemma is_finished_of_tid t e : is_finished_of t e = true -> event_tid e = Some t.
+Proof.
+  destruct e; cbn; try discriminate. intros H. apply N.eqb_eq in H. subst. reflexivity.
+Qed.
+
+(* a reported finish is preceded by a reported start *)
+Lemma ocheck_finish_after_start tot t pre e post o' :
+  ocheck tot t ONone (pre ++ e :: post) = Some o' -> is_finished_of t e = true ->
+  exists x, In x pre /\ is_started_of t x = true.
+Proof.
+  intros H He. rewrite ocheck_app in H.
+  destruct (ocheck tot t ONone pre) as [o1|] eqn:E1; [|discriminate].
+  cbn [ocheck] in H. rewrite (is_finished_of_tid _ _ He), N.eqb_refl in H.
+  destruct (ostep tot o1 e) as [o2|] eqn:Es; [|discriminate].
+  assert (Hf : started_flag o1 = 1%nat).
+  { destruct e; cbn in He; try discriminate. destruct o1; cbn [ostep] in Es; try discriminate. reflexivity. }
+  destruct (ocheck_counts _ _ _ _ _ E1) as (A & _ & _). cbn [started_flag] in A.
+  apply count_if_pos_exists. lia.
+Qed.
+
+(* the attempts carried by a reported finish are numbered 1..k, k <= total *)
+Lemma ocheck_finish_numbered tot t pre sts s r cs post o' :
+  ocheck tot t ONone (pre ++ ETestFinished t sts s r cs :: post) = Some o' ->
+  numbered_from 1 (st_all sts) = true /\ st_len sts <= tot.
+Proof.
+  intros H. rewrite ocheck_app in H.
+  destruct (ocheck tot t ONone pre) as [o1|] eqn:E1; [|discriminate].
+  cbn [ocheck event_tid] in H. rewrite N.eqb_refl in H.
+  destruct (ostep tot o1 (ETestFinished t sts s r cs)) as [o2|] eqn:Es; [|discriminate].
+  destruct o1; cbn [ostep] in Es; try discriminate.
+  destruct ((st_len sts =? k) && numbered_from 1 (st_all sts) && (k <=? tot)) eqn:Ec; [|discriminate].
+  bool_hyps. split; auto. lia.
+Qed.
+
+(* reaching "attempt k failed, retry pending" needs a reported failed attempt k *)
+Lemma ocheck_reach_wait tot t k l : forall o,
+  ocheck tot t o l = Some (OWait k) ->
+  o = OWait k \/ exists x, In x l /\ is_failed_retry_of t k x = true.
+Proof.
+  induction l as [|e l IH]; intros o H; cbn [ocheck] in H.
+  - inversion H; auto.
+  - destruct (event_tid e) as [t'|] eqn:Et.
+    + destruct (N.eqb_spec t' t) as [->|Hne].
+      * destruct (ostep tot o e) as [o1|] eqn:Es; [|discriminate].
+        destruct (IH _ H) as [->|(x & Hin & Hx)].
+        -- right. exists e. split; [left; auto|].
+           destruct e; cbn [event_tid] in Et; try discriminate; inversion Et; subst;
+             destruct o; cbn [ostep] in Es; try discriminate;
+             repeat match type of Es with context [if ?b then _ else _] => destruct b eqn:?; try discriminate end;
+             inversion Es; subst.
+           bool_hyps. cbn [is_failed_retry_of]. rewrite N.eqb_refl. cbn [andb]. apply N.eqb_eq. auto.
+        -- right. exists x. split; auto. right; auto.
+      * destruct (IH _ H) as [->|(x & Hin & Hx)]; auto. right. exists x. split; auto. right; auto.
+    + destruct (IH _ H) as [->|(x & Hin & Hx)]; auto. right. exists x. split; auto. right; auto.
+Qed.
+
+(* a reported retry k+1 is preceded by a reported failed attempt k *)
+Lemma ocheck_retry_after_failure tot t pre e post o' k :
+  ocheck tot t ONone (pre ++ e :: post) = Some o' -> is_retry_of t (k + 1) e = true ->
+  exists x, In x pre /\ is_failed_retry_of t k x = true.
+Proof.
+  intros H He. rewrite ocheck_app in H.
+  destruct (ocheck tot t ONone pre) as [o1|] eqn:E1; [|discriminate].
+  destruct e; cbn [is_retry_of] in He; try discriminate. bool_hyps. subst.
+  cbn [ocheck event_tid] in H. rewrite N.eqb_refl in H.
+  destruct (ostep tot o1 (ETestRetryStarted t (k + 1) total)) as [o2|] eqn:Es; [|discriminate].
+  destruct o1; cbn [ostep] in Es; try discriminate.
+  destruct ((k + 1 =? k0 + 1) && (total =? tot)) eqn:Ec; [|discriminate]. bool_hyps.
+  assert (k0 = k) by lia. subst k0.
+  destruct (ocheck_reach_wait _ _ _ _ _ E1) as [Hbad|Hex]; [discriminate|exact Hex].
+Qed.
+
+(* any reported non-skip event of a test means it was reported started *)
+Lemma ocheck_event_started tot t l : forall o o' e,
+  ocheck tot t o l = Some o' -> In e l -> event_tid e = Some t -> is_skipped_of t e = false ->
+  started_flag o' = 1%nat.
+Proof.
+  induction l as [|e0 l IH]; intros o o' e H Hin Ht Hsk; [destruct Hin|].
+  cbn [ocheck] in H. destruct Hin as [->|Hin].
+  - rewrite Ht, N.eqb_refl in H. destruct (ostep tot o e) as [o1|] eqn:Es; [|discriminate].
+    assert (started_flag o1 = 1%nat).
+    { destruct e; cbn [event_tid] in Ht; try discriminate;
+        destruct o; cbn [ostep] in Es; try discriminate;
+        repeat match type of Es with context [if ?b then _ else _] => destruct b; try discriminate end;
+        inversion Es; subst; auto.
+      inversion Ht; subst. cbn [is_skipped_of] in Hsk. rewrite N.eqb_refl in Hsk. discriminate. }
+    destruct (ocheck_counts _ _ _ _ _ H) as (A & _ & _).
+    destruct o'; cbn [started_flag] in *; lia.
+  - destruct (event_tid e0) as [t'|]; [destruct (t' =? t)|]; try (eapply IH; eauto; fail).
+    destruct (ostep tot o e0) as [o1|]; [|discriminate]. eapply IH; eauto.
+Qed.
+
+Lemma cfg_unsel_not_sel c t : cfg_ok c = true -> memb t (c_unsel c) = true -> ~ In t (c_sel c).
+Proof.
+  unfold cfg_ok. intros H Hm Hin. apply andb_true_iff in H. destruct H as [H _].
+  apply andb_true_iff in H. destruct H as [_ H]. rewrite forallb_forall in H.
+  apply memb_in in Hm. specialize (H _ Hm). apply negb_true_iff in H.
+  apply memb_in in Hin. congruence.
+Qed.
+
+Theorem once c mf dbg h :
+  wf_history c mf dbg h = true -> (shutdown_count h <= 2)%nat ->
+  let o := out (Live (init_for c mf dbg)) h in
+  forall t,
+    (count_if (is_started_of t) o <= 1)%nat /\
+    (count_if (is_finished_of t) o <= 1)%nat /\
+    (count_if (is_skipped_of t) o <= 1)%nat /\
+    (forall pre e post, o = pre ++ e :: post -> is_finished_of t e = true ->
+       exists x, In x pre /\ is_started_of t x = true) /\
+    (forall e, In e o -> is_skipped_of t e = true -> In t (c_unsel c) /\ ~ In t (c_sel c)) /\
+    (forall e, In e o -> event_tid e = Some t -> is_skipped_of t e = false -> In t (c_sel c)).
+Proof.
+  intros Hwf Hsig o t.
+  destruct (wf_run _ _ _ _ Hwf Hsig) as (d & ps & Hfin & Hsim & _ & Hoc).
+  apply wf_history_unfold in Hwf. destruct Hwf as [Hok _].
+  specialize (Hoc t). fold o in Hoc.
+  destruct (ocheck_counts _ _ _ _ _ Hoc) as (A & B & C).
+  cbn [started_flag finished_flag skipped_flag] in A, B, C.
+  pose proof (sim_phase _ _ _ Hsim t) as Hrel.
+  split; [destruct (o_of_phase (ps_phase ps t)); cbn in A; lia|].
+  split; [destruct (o_of_phase (ps_phase ps t)); cbn in B; lia|].
+  split; [destruct (o_of_phase (ps_phase ps t)); cbn in C; lia|].
+  split; [|split].
+  - intros pre e post E He. rewrite E in Hoc. eapply ocheck_finish_after_start; eauto.
+  - intros e Hin Hsk.
+    assert (Hc : (0 < count_if (is_skipped_of t) o)%nat).
+    { unfold count_if. assert (Hi : In e (filter (is_skipped_of t) o)) by (apply filter_In; auto).
+      destruct (filter _ o); [destruct Hi|cbn; lia]. }
+    destruct (ps_phase ps t); cbn in C, Hrel; try lia.
+    split; [apply memb_in; tauto|]. eapply cfg_unsel_not_sel; eauto. tauto.
+  - intros e Hin Ht Hsk.
+    pose proof (ocheck_event_started _ _ _ _ _ _ Hoc Hin Ht Hsk) as Hf.
+    destruct (ps_phase ps t); cbn in Hf, Hrel; try discriminate; apply memb_in; tauto.
+Qed.
+
+Theorem attempts c mf dbg h :
+  wf_history c mf dbg h = true -> (shutdown_count h <= 2)%nat ->
+  let o := out (Live (init_for c mf dbg)) h in
+  forall t,
+    (* the events reported for t follow the per-test automaton: Started; then attempts k = 1, 2, ...
+       each either AttemptFailedWillRetry k (k < total) followed by RetryStarted k+1, or Finished *)
+    (exists o', ocheck (c_total c t) t ONone o = Some o') /\
+    (* the attempts carried by TestFinished are numbered 1..k consecutively, k <= total_attempts *)
+    (forall pre sts s r cs post, o = pre ++ ETestFinished t sts s r cs :: post ->
+       numbered_from 1 (st_all sts) = true /\ st_len sts <= c_total c t) /\
+    (* each TestRetryStarted k+1 is preceded by TestAttemptFailedWillRetry k *)
+    (forall pre e post k, o = pre ++ e :: post -> is_retry_of t (k + 1) e = true ->
+       exists x, In x pre /\ is_failed_retry_of t k x = true).
+Proof.
+  intros Hwf Hsig o t.
+  destruct (wf_run _ _ _ _ Hwf Hsig) as (d & ps & _ & _ & _ & Hoc).
+  specialize (Hoc t). fold o in Hoc. split; [eauto|]. split.
+  - intros pre sts s r cs post E. rewrite E in Hoc. eapply ocheck_finish_numbered; eauto.
+  - intros pre e post k E He. rewrite E in Hoc. eapply ocheck_retry_after_failure; eauto.
+Qed.
+
+(* ------------------------------------------------------------------ fixtures of the closed examples *)
+
+Definition ex_cfg : cfg := mk_cfg [0; 1; 2] [3] (fun t => if t =? 1 then 3 else 1) 1.
+Definition f_att (no total : N) : attempt := mk_attempt (Fail (Some 6) false) false no total.
+Definition p_att (no total : N) : attempt := mk_attempt Pass false no total.
+Definition l_att (no total : N) : attempt := mk_attempt Leak true no total.
+
+(* everything passes (test 1 is flaky: fails twice, passes the third attempt; test 2 leaks) *)
+Definition ex_pass : list devent :=
+  [ScriptStarted 0; ScriptSlow 0 false; ScriptFinished 0 Pass;
+   Started 0; Skipped 3; Started 1; Slow 1 1 3 false;
+   AttemptFailedWillRetry 1 (f_att 1 3); Finished 0 (p_att 1 1); RetryStarted 1 2 3; SigStop; SigCont;
+   AttemptFailedWillRetry 1 (f_att 2 3); RetryStarted 1 3 3; Started 2; InputEnter;
+   Finished 1 (p_att 3 3); Finished 2 (l_att 1 1)].
+
+(* test 0 fails with fail-fast: test 2 never starts, the retry of test 1 is refused *)
+Definition ex_fail_fast : list devent :=
+  [ScriptStarted 0; ScriptFinished 0 Pass;
+   Started 0; Started 1; AttemptFailedWillRetry 1 (f_att 1 3); Finished 0 (f_att 1 1);
+   RetryStarted 1 2 3; Started 2].
+
+(* cancelled by SIGINT although nothing failed *)
+Definition ex_interrupted : list devent :=
+  [ScriptStarted 0; ScriptFinished 0 Pass; Started 0; SigShutdown SInterrupt; Finished 0 (p_att 1 1);
+   Started 1; Started 2].
+
+(* the setup script fails *)
+Definition ex_script_fails : list devent :=
+  [ScriptStarted 0; ScriptFinished 0 (Fail None false); Started 0; Started 1; Started 2].
+
+Definition ex_cfg_empty : cfg := mk_cfg [] [0] (fun _ => 1) 0.
